@@ -95,6 +95,7 @@ def normalize_helpers(prog, config="default"):
         if f is not None:
             protect.add(f.id)
     done = inline.normalize(prog, protect, config)
+    inline.strip_debug_asserts(prog)
     n = inline.desugar_closures(prog)
     if n:
         done = list(done) + ["<%d combinator/closure call sites desugared>" % n]
